@@ -211,6 +211,9 @@ def t_process_batch(E, cancellable=False):
         def call_user(E_, fobj, args, kwargs, node):
             if fobj is st['func']:
                 st['func_args'] = args
+                E.oblige(tagq + '/call.batch_function_is_called_inside_the_semaphore', z3.BoolVal(bool(st.get('in_sem'))),
+                         props={'C10', 'C15'}, detail='a batch callable that starts its work when called must not '
+                                                      'start before a concurrency slot is free')
                 # an async generator function only starts running at its first step; a plain callable that returns
                 # the result stream may well raise right here (it validates its batch): an exception raised by the
                 # batch function like any other
@@ -981,6 +984,9 @@ def t_call(E):
                     st.setdefault('enqueued', []).append(a[0])
                     return NONE
                 return VStub('Queue.put_nowait', putn)
+            if isinstance(obj, Obj) and obj.cls == 'ASemaphore' and name == 'locked':
+                # whether every batch slot is busy: says nothing about where THIS request is
+                return VStub('Semaphore.locked', lambda E_, a, k: VBool(E.fresh('all_slots_busy', z3.BoolSort())))
             if obj is st['q'] and name in ('empty', 'qsize'):
                 # what is queued says nothing about THIS request: the collector may have taken it into an open batch
                 if name == 'empty':
@@ -1066,7 +1072,8 @@ def t_call(E):
         q = Obj('AQueue', dict(maxsize=VInt(0)))
         loop = E.fresh_val('loop', LoopS)
         ret = E.fresh_real('retention_timeout')
-        o.fields.update(_retention_cache=rc, _queue=q, _loop=loop, retention_timeout=ret)
+        o.fields.update(_retention_cache=rc, _queue=q, _loop=loop, retention_timeout=ret,
+                        _semaphore=Obj('ASemaphore', dict(value=E.fresh_int('permits'))))
         st.update(rc=rc, q=q, retention=ret.t)
         arg = E.fresh_val('arg')
         key_given = E.fresh_bool('key_given')
